@@ -7,7 +7,7 @@
 //
 //     M rsize=<Rsize> inputs=<Inputs> outputs=<Outputs> ncp=<len(Domains)> procs=<Processors,..>
 //     C <i> rsize= r= n= m= l= o= mode= ws= ops=<names,..> shared=<0|1> mw=<Max_word()> sc=<Shared_constraints, ';' separated | ->
-//     SO <shared object> ...           Shared_objects (String() of each), only when there are any
+//     SO <shared object> ...           Shared_objects (String() of each) or "SO -"
 //     SL [<so id>,..] ...              Shared_links, one bracket per processor
 //     W <i> <rom word>                 one per Program.Slocs entry, in order
 //     D <i> <data word>                one per Data.Vars entry
@@ -191,7 +191,7 @@ func Dump(bm *bondmachine.Bondmachine) []string {
 	for i, so := range bm.Shared_objects {
 		sos[i] = so.String()
 	}
-	if len(sos) > 0 || len(bm.Shared_links) > 0 {
+	{
 		if len(sos) == 0 {
 			sos = []string{"-"}
 		}
